@@ -1,2 +1,4 @@
 -- Root of the `RagcModel` library: models, lemmas and property theorems.
 import RagcModel.Model.Kmer
+import RagcModel.Model.Varint
+import RagcModel.Model.Container
